@@ -466,7 +466,23 @@ def _job_trace(tier, rng, n):
     names = ['one_multiply_per_gate', 'init_is_identity_tableau', 'gates_consumed_in_reversed_order_with_embedded_tableau', 'state_threaded_between_iterations',
              'returns_final_loop_state', 'caches_final_loop_state', 'cache_read_path_returns_cache', 'apply_pauli_F2_delegates_to_apply_clifford_on_pauli',
              'to_universal_circuit_records_same_sequence']
+    sem_ok = None
+    if bad:
+        # the trace obligations describe HOW to_symplectic_form / apply_pauli_F2 are organised (one clifford_multiply per gate, reversed order, cached sentinels).
+        # End-to-end, no stubs: every history [gate, query, gate, query] over all placements must agree with the dense oracle U^dagger P U. If it does, the code is
+        # organised differently from what the trace reads -> undecided; otherwise the failing history is the replayed violation.
+        sem = job_histories('quick', rng, min(n, 2), 3 if n >= 2 else 4)[0]
+        sem_ok = sem['verdict'] == 'pass'
+        sem_wit = sem.get('witness')
     for nm in names:
+        if nm in bad and sem_ok:
+            out.append(ob(f'{PROP}.CliffordCircuit.trace.{nm}[n={n}]', 'undecided', engine_suspect=True, functions=fns, tier='P', backend='exact-eval (recorder stubs)+native', cases=nchk,
+                          detail=f'trace obligation {nm} fails for gate list {bad[nm]!r:.120}, but every exhaustive history over all placements agrees with the dense oracle: the tableau is built differently from what the trace reads'))
+            continue
+        if nm in bad and sem_ok is False:
+            out.append(ob(f'{PROP}.CliffordCircuit.trace.{nm}[n={n}]', 'refuted', functions=fns, tier='P', backend='exact-eval (recorder stubs)+native', cases=nchk, witness=sem_wit,
+                          native=dict(confirmed=True), detail=f'trace obligation {nm} fails and a history disagrees with the dense oracle'))
+            continue
         out.append(ob(f'{PROP}.CliffordCircuit.trace.{nm}[n={n}]', 'proved' if nm not in bad else 'refuted', functions=fns, tier='P',
                       backend='exact-eval (finite: all gate lists of length 1, 2 over all placements; no symbolic input)',
                       witness=None if nm not in bad else dict(gate_list=[list(g) for g in bad[nm]]), cases=nchk,
